@@ -295,6 +295,9 @@ func (c *Ctx) allocRef(st *State, g *Term, hint string) *Term {
 	r := c.defineAlways(hint, tAdd(a, intLit(1)))
 	c.allocOrd++
 	c.allocOf[r.S] = c.allocOrd
+	if c.allocKeys != nil {
+		c.allocKeys[r.S] = append([]string(nil), c.curWriteKeys...)
+	}
 	c.heapSet(st, c.allocName(), r)
 	return r
 }
@@ -635,8 +638,36 @@ func (fr *Frame) exec(st *State, g *Term) []retInfo {
 						}
 						pre := c.heapGet(bst, name)
 						nv := c.heapHavoc(bst, name)
-						c.assume(mk(SBool, fmt.Sprintf("(forall ((fr Int)) (! (=> (and (<= fr %s)%s) (= (select %s fr) (select %s fr))) :pattern ((select %s fr))))", allocHead.S, notOwn, nv.S, pre.S, nv.S)))
-						if notOwn != "" {
+						// does the body write this array at an own object that was allocated outside the loop body? (records
+						// "freshat:<name>|<keys live at the allocation>": inside the body iff one of the keys is a body block)
+						excl := notOwn
+						if os.Getenv("GOVC_OLDFRAME") == "" {
+							bodyKeys := map[string]bool{}
+							for bb := range naturalLoop(b) {
+								bodyKeys[fmt.Sprintf("%s:%d", fr.id, bb.Index)] = true
+							}
+							outer := false
+							pfx := "freshat:" + name + "|"
+							for rec := range mods {
+								if !strings.HasPrefix(rec, pfx) {
+									continue
+								}
+								inside := false
+								for _, k := range strings.Split(rec[len(pfx):], ",") {
+									if bodyKeys[k] {
+										inside = true
+									}
+								}
+								if !inside {
+									outer = true
+								}
+							}
+							if !outer {
+								excl = "" // every own object written was allocated by the same iteration: beyond the frontier
+							}
+						}
+						c.assume(mk(SBool, fmt.Sprintf("(forall ((fr Int)) (! (=> (and (<= fr %s)%s) (= (select %s fr) (select %s fr))) :pattern ((select %s fr))))", allocHead.S, excl, nv.S, pre.S, nv.S)))
+						if excl != "" {
 							// the special case of objects that existed at function entry, stated separately: it follows from the
 							// line above but spares the solver the chain of frontier inequalities
 							a0 := sanitize("$alloc") + "@0"
